@@ -66,6 +66,7 @@ void do_plan(int tier)
     it.type = (int)sim_plan(4);
     it.task_work = (int)sim_plan(4);
     it.ctor_work = (int)sim_plan(4);
+    it.natural = sim_plan(6) == 0;
     it.nact = (int)sim_plan(6);
     for (int k = 0; k < it.nact; k++) {
       it.act[k] = (int)sim_plan(C02_A_NACT);
@@ -141,8 +142,8 @@ void describe(char *buf, size_t n)
   int k = snprintf(buf, n, "{\"init_threads\": %d, \"reinit_threads\": %d, \"interleave\": %d, \"burst\": %d, \"sporadic_tasks_after_idle\": %d, \"items\": [", plan.init_threads, plan.reinit_threads, plan.interleave, plan.burst, plan.sporadic);
   for (int i = 0; i < plan.nitems && k < (int)n - 300; i++) {
     const C02Item &it = plan.items[i];
-    k += snprintf(buf + k, n - k, "%s{\"api\": \"%s<%s>\", \"task_work\": %d, \"ctor_work\": %d, \"script\": [", i ? "," : "", api[it.api],
-                  ty[it.type], it.task_work, it.ctor_work);
+    k += snprintf(buf + k, n - k, "%s{\"api\": \"%s<%s>\", \"task_work\": %d, \"ctor_work\": %d, \"returns_zero_or_empty\": %d, \"script\": [", i ? "," : "", api[it.api],
+                  ty[it.type], it.task_work, it.ctor_work, it.natural);
     for (int a = 0; a < it.nact; a++)
       k += snprintf(buf + k, n - k, "%s\"%s\"", a ? "," : "", an[it.act[a]]);
     k += snprintf(buf + k, n - k, "]}");
